@@ -153,7 +153,7 @@ fn main() {
                 println!("ORACLE {}", v);
             }
         }
-        "raw" => raw::run(arg(&args, "--list").unwrap(), arg(&args, "--ops").unwrap(), arg(&args, "--impl").unwrap()),
+        "raw" => raw::run(arg(&args, "--list").unwrap(), arg(&args, "--ops").unwrap(), arg(&args, "--impl").unwrap(), arg_u64(&args, "--start", 0) as usize),
         "mutate" => mutate::run(arg_u64(&args, "--seed", 1), arg(&args, "--bases").unwrap(), arg(&args, "--outdir").unwrap(), arg_u64(&args, "--count", 100), arg(&args, "--list").unwrap()),
         "deviate" => deviate::run(arg_u64(&args, "--seed", 1), arg(&args, "--bases").unwrap(), arg(&args, "--outdir").unwrap(), arg_u64(&args, "--combos", 3), arg(&args, "--list").unwrap()),
         "locks" => {
